@@ -39,7 +39,7 @@ ASSUMPTIONS = [
     "binary(use_stochastic_rounding=True) is outside the domain (inference path raises, see C08)",
     "inputs |x| <= 1e30 (2*max|x| must not overflow float32 in the 'auto' scale)",
 ]
-BUDGET_S = {"quick": 60, "thorough": 800}
+BUDGET_S = {"quick": 50, "thorough": 800}
 _CLS = ["quantized_bits", "quantized_linear", "quantized_relu", "quantized_po2",
         "quantized_relu_po2", "binary", "ternary", "stochastic_binary", "stochastic_ternary",
         "quantized_tanh", "quantized_sigmoid", "quantized_hswish", "quantized_ulaw", "bernoulli"]
@@ -283,7 +283,7 @@ def run(ctx):
     ctx.tick(case, labels=["hyp"] + labels, nontrivial=nt, sample_label="hyp:" + labels[0])
     return [(sc, sig, d) for sc, sig, d, _ in fails]
 
-  n = (6000 if ctx.quick else 160000) // ctx.n + 1
+  n = (4800 if ctx.quick else 160000) // ctx.n + 1
   core.hyp_run(ctx, G.case_strategy(ctx.tier), orc, n, name="c06")
 
 
